@@ -2,8 +2,10 @@
     Models: Wire/Decode.v (raw validation), Wire/Unmarshal.v (Param decoder, typed decoder over the type algebra [ety]),
     Wire/HasSig.v, Wire/Body.v (has_sig of the typed impls and derived structs, MessageBodyParser), Sig/Parser.v,
     Sig/Validator.v, Sig/Iter.v. In the models every Rust index / slice / unwrap that input could reach is an
-    explicit [Panic], every unsafe precondition [UB], every loop runs on fuel ([OutOfFuel]); [ok_or_err] says the
-    outcome is a value or an error. Totality of the three decoders: Wire/DecodeTotal.v (prover-c03); of the signature
+    explicit [Panic] and every loop runs on fuel ([OutOfFuel]); [ok_or_err] says the outcome is a value or an error.
+    Unsafe code: after fix b23f55c the slice fast path copies the elements (Vec<E>) or tests the address before it
+    borrows (Cow<[E]>: same value, not modelled separately), so the model has no [UB] outcome left to exclude; the
+    memory-address dimension (all 8 phases, debug-assertion and optimised build) is covered by the check. Totality of the three decoders: Wire/DecodeTotal.v (prover-c03); of the signature
     functions: C07; the body parser: Wire/ParserTotal.v; resource bounds: Wire/LimitsProofs.v, C18.
     Scope: [ety] is a finite tree, i.e. exactly the Rust types that do not contain themselves; for self-referential
     user types the typed decoders' recursion depth is chosen by the message (known finding D21, not covered).
